@@ -15,7 +15,7 @@ def selftest(tier):
 
 
 def obligations(tier, seed):
-    t = 450 if tier == 'quick' else 1200
+    t = 240 if tier == 'quick' else 1200
     names = 'ABCP'
     sh1 = []
     for i, pre in enumerate(plan(skeletons.TEMPLATES, tier, seed + 2, 6, names=names, lengths_thorough=(3,),
